@@ -48,6 +48,16 @@ class Knobs:
         self.p_state_inputs = 0.5
         # framework primitives (RequestHead, ConnectionInfo, AllowedMethods, RawPathParams, RawIncomingBody) as extra inputs
         self.p_prims = 0.5
+        # primary constructors registered in the nested blueprint that contains all their users, instead of the root
+        self.p_scoped = 0.5
+        # constructors whose output borrows from an input: `fn c<'a>(a0: &'a T1, ..) -> T2<'a>` (probability per application)
+        self.p_captures = 0.5
+        # a type registered twice in the root blueprint (the latest registration wins)
+        self.p_shadow = 0.4
+        # registrations written as imports: `bp.routes(from![crate::module])`, `bp.import(from![crate::module])`
+        self.p_imports = 0.5
+        # request-time components whose error type is `pavex::Error` itself
+        self.p_pavex_errors = 0.6
         self.__dict__.update(kw)
         if self.flavour == "observers":
             self.n_obs = (3, 6)
@@ -163,7 +173,9 @@ def gen_inclass(rng, knobs=None):
 
     infallible = {}
 
-    def make_ctor(cid, t, lower, lc, force_infallible=False):
+    with_captures = rng.random() < kn.p_captures
+
+    def make_ctor(cid, t, lower, lc, force_infallible=False, primary=True):
         ty = spec["types"][t]
         if lc == "singleton":
             cands = [u for u in lower if spec["types"][u]["lc"] == "singleton"]
@@ -172,6 +184,11 @@ def gen_inclass(rng, knobs=None):
         k = rng.choice([0, 1, 1, 2, 2, 3])
         ins = pick_inputs("ctor:" + lc, cands, k, allow_fallible=not force_infallible)
         c = {"out": t, "ins": ins, "lc": lc}
+        refs = [j for j, (_u, mo) in enumerate(ins) if mo == "ref"]
+        if with_captures and primary and lc != "singleton" and refs and rng.random() < 0.4:
+            # the value holds on to (some of) what its constructor borrowed: `T<'a>`
+            ty["lt"] = True
+            c["captures"] = sorted(rng.sample(refs, rng.choice([1, 1, min(2, len(refs))])))
         if ty["disc"] == "cloneable":
             c["cloning"] = "cin"
         elif ty["disc"] == "copy":
@@ -211,10 +228,14 @@ def gen_inclass(rng, knobs=None):
     # ---- blueprint tree
     counters = {"h": 0, "m": 0, "o": 0, "fb": 0, "label": 0, "ovr": 0}
 
+    pavex_errors = [False]
     local_errors = []   # error types that only components of the blueprint subtree being built may return
     deferred_eh = []    # (items list of the blueprint that will register it, error handler id)
 
     def pick_error():
+        if pavex_errors[0] and rng.random() < 0.3:
+            # the component returns `pavex::Error` itself: handled by the handler for `pavex::Error`
+            return "pavex"
         if local_errors and rng.random() < 0.6:
             return rng.choice(local_errors)
         return rng.choice(spec["errors"])
@@ -295,10 +316,21 @@ def gen_inclass(rng, knobs=None):
     n_handlers_target = rint(rng, kn.n_handlers)
     n_mws_target = rint(rng, kn.n_mws)
     n_obs_target = rint(rng, kn.n_obs)
+    # (known finding: the compiler panics when an error observer applies to a component that returns `pavex::Error`)
+    pavex_errors[0] = kn.p_pavex_errors > 0 and (n_obs_target == 0 or not kn.avoid_known) and rng.random() < kn.p_pavex_errors
 
-    def build_bp(depth, avail_types, budget, own_prefix=False, under_prefix=False, bp_stack=()):
-        """budget: dict with remaining handlers/mws/obs to place in this subtree."""
+    def build_bp(depth, avail_types, budget, own_prefix=False, under_prefix=False, bp_stack=(), owner_fb=False):
+        """budget: dict with remaining handlers/mws/obs to place in this subtree.
+        owner_fb: the blueprint that introduces the path prefix we are under (reached through un-prefixed blueprints only)
+        registers a fallback of its own."""
         items = []
+        # documented rule ("Routing logic can't be ambiguous"): a fallback registered below a path prefix claims every
+        # unmatched path under that prefix. It may sit in the blueprint that introduces the prefix, or — when that blueprint
+        # has a fallback of its own, which then owns the unmatched paths — in an un-prefixed blueprint nested inside it
+        # (that one only serves the method mismatches of its own routes).
+        fallback_allowed = depth == 0 or own_prefix or not under_prefix or owner_fb
+        want_fb = fallback_allowed and rng.random() < (0.9 if kn.flavour == "routing" else 0.5 if depth == 0 else 0.4)
+        fb_for_children = want_fb if own_prefix else owner_fb
         bp_stack = bp_stack + (items,)
         local_types = list(avail_types)
         pushed_local = None
@@ -326,14 +358,37 @@ def gen_inclass(rng, knobs=None):
         if depth > 0:
             for t in rng.sample(names, min(len(names), rng.choice([0, 0, 1, 2]))):
                 ty = spec["types"][t]
-                if ty["lc"] == "singleton" or ty["disc"] == "moved":
+                if ty["lc"] == "singleton" or ty["disc"] == "moved" or ty.get("lt"):
                     continue
                 idx = names.index(t)
                 cid = "C%d_%d" % (idx, counters["ovr"])
                 counters["ovr"] += 1
                 # a type that observers / error handlers may rely on as infallible stays infallible in every scope
-                make_ctor(cid, t, names[:idx], ty["lc"], force_infallible=infallible[t])
+                make_ctor(cid, t, names[:idx], ty["lc"], force_infallible=infallible[t], primary=False)
                 items.append(["ctor", cid])
+        # types that only exist in this subtree: their only registration sits here, invisible to siblings and ancestors
+        if depth > 0 and kn.p_scoped and rng.random() < 0.45:
+            for _ in range(rng.choice([1, 1, 2])):
+                t = "TL%d" % counters["label"]
+                counters["label"] += 1
+                lc = rng.choices(["singleton", "request", "transient"], [3, 4, 2])[0]
+                disc = "free" if lc == "transient" else rng.choices(["shared", "cloneable", "copy"], [5, 3, 1])[0]
+                ty = {"lc": lc, "disc": disc}
+                if disc == "copy":
+                    ty["copy"] = ty["clone"] = True
+                elif disc == "cloneable":
+                    ty["clone"] = True
+                else:
+                    ty["clone"] = rng.random() < 0.3
+                spec["types"][t] = ty
+                cid = "C" + t
+                if lc == "singleton" and rng.random() < 0.3:
+                    c = make_state_input(rng, spec, cid, t)
+                else:
+                    c = make_ctor(cid, t, [u for u in local_types if u != t], lc)
+                infallible[t] = (not c.get("fallible")) and all(infallible[u] for (u, _) in c["ins"])
+                items.append(["ctor", cid])
+                local_types.append(t)
         body = []
         nh = budget["h"]
         # routes, in groups that share a template
@@ -386,7 +441,8 @@ def gen_inclass(rng, knobs=None):
                     counters["label"] += 1
                     if rng.random() < 0.2:
                         opts["prefix"] += "/{np%d}" % counters["label"]
-                child = build_bp(depth + 1, local_types, it[2], own_prefix=bool(opts.get("prefix")), under_prefix=under_prefix or bool(opts.get("prefix")), bp_stack=bp_stack)
+                child = build_bp(depth + 1, local_types, it[2], own_prefix=bool(opts.get("prefix")), under_prefix=under_prefix or bool(opts.get("prefix")), bp_stack=bp_stack,
+                                 owner_fb=fb_for_children)
                 if kn.avoid_known and opts.get("prefix", "").endswith("}") and any(x[0] == "fallback" for x in child["items"]):
                     # known finding (router.rs assign_fallbacks): a prefix ending in a parameter + a fallback in the
                     # nested blueprint panics; exercised by a dedicated regression case instead
@@ -394,12 +450,9 @@ def gen_inclass(rng, knobs=None):
                 items.append(["nest", opts, child])
             else:
                 items.append(it)
-        # documented rule ("Routing logic can't be ambiguous"): a fallback registered below a path prefix claims every
-        # unmatched path under that prefix, so it may only sit in the blueprint that introduces the prefix
         if pushed_local is not None:
             local_errors.remove(pushed_local)
-        fallback_allowed = depth == 0 or own_prefix or not under_prefix
-        if fallback_allowed and rng.random() < (0.9 if kn.flavour == "routing" else 0.5 if depth == 0 else 0.4):
+        if want_fb:
             items.insert(rng.randint(0, len(items)), ["fallback", new_fb([t for t in local_types if spec["types"][t]["disc"] != "moved"])])
         return {"items": items}
 
@@ -437,6 +490,18 @@ def gen_inclass(rng, knobs=None):
     for it in moved:
         items.insert(rng.randint(0, len(items)), it)
     spec["bp"] = {"items": items}
+    # within one blueprint the latest registration wins: a second constructor for a type, registered next to the first
+    if rng.random() < kn.p_shadow:
+        cands = [t for t in names if spec["types"][t]["lc"] != "singleton" and spec["types"][t]["disc"] != "moved" and not spec["types"][t].get("lt")]
+        for t in rng.sample(cands, min(len(cands), rng.choice([1, 1, 2]))):
+            idx = names.index(t)
+            first = next((j for j, it in enumerate(items) if it[0] == "ctor" and it[1] == "C%d" % idx), None)
+            if first is None:
+                continue
+            cid = "C%d_s" % idx
+            # (a type that observers / error handlers rely on stays infallible whichever registration wins)
+            make_ctor(cid, t, names[:idx], spec["types"][t]["lc"], force_infallible=infallible[t] or rng.random() < 0.4, primary=False)
+            items.insert(rng.randint(0, len(items)), ["ctor", cid])
     for (target_items, ehid) in deferred_eh:
         target_items.insert(rng.randint(0, len(target_items)), ["eh", ehid])
     spec["errors"] = spec["errors"] + spec.pop("errors_local", [])
@@ -447,16 +512,73 @@ def gen_inclass(rng, knobs=None):
         domainize(rng, spec)
     if kn.avoid_known:
         repair_known(spec)
+    if rng.random() < kn.p_scoped:
+        scope_registrations(rng, spec)
     if rng.random() < kn.p_prims:
         add_prims(rng, spec)
     vary_cloning_representation(rng, spec)
+    vary_lifecycle_representation(rng, spec)
     if rng.random() < kn.p_modules:
         modularize(rng, spec)
     if rng.random() < kn.p_crates:
         crateize(rng, spec)
     if rng.random() < kn.p_methods:
         methodize(rng, spec)
+    if rng.random() < kn.p_imports:
+        importize(rng, spec)
     return spec
+
+
+def importize(rng, spec):
+    """Representation pass: registrations written as imports. A run of consecutive routes of one blueprint moves to a module
+    and is registered with one `bp.routes(from![crate::<module>])` at that position; some constructors / error handlers of a
+    blueprint move to a module registered with one `bp.import(from![crate::<module>])`. The blueprint items stay what they
+    were (the reference model does not change); they only carry the module they are imported from."""
+    dep = spec.get("dep") or {"ctors": [], "types": [], "errors": []}
+    k = 0
+    for bp, _d in _bp_nodes(spec["bp"]):
+        # --- routes
+        run = []
+        runs = []
+        for it in bp["items"] + [["end"]]:
+            if it[0] == "route" and len(it) == 2 and not spec["handlers"][it[1]].get("method"):
+                run.append(it)
+            else:
+                if run:
+                    runs.append(run)
+                run = []
+        for run in runs:
+            if rng.random() < 0.5:
+                mod = "r_%d" % k
+                k += 1
+                for it in run:
+                    it.append({"import": mod})
+                    spec["handlers"][it[1]]["module"] = mod
+        # --- constructors and error handlers (position independent inside one blueprint)
+        per_type = {}
+        for it in bp["items"]:
+            if it[0] == "ctor":
+                per_type[spec["ctors"][it[1]]["out"]] = per_type.get(spec["ctors"][it[1]]["out"], 0) + 1
+        pool = []
+        for it in bp["items"]:
+            if len(it) != 2:
+                continue
+            if it[0] == "ctor":
+                c = spec["ctors"][it[1]]
+                if c.get("input") or c.get("module") or c.get("method") or c.get("generic_param") or it[1] in dep["ctors"] or per_type[c["out"]] > 1:
+                    continue
+                pool.append(it)
+            elif it[0] == "eh":
+                eh = spec["ehs"][it[1]]
+                if eh.get("method") or eh["err"] == "pavex":
+                    continue
+                pool.append(it)
+        if len(pool) >= 2 and rng.random() < 0.5:
+            mod = "i_%d" % k
+            k += 1
+            for it in rng.sample(pool, rng.randint(2, len(pool))):
+                it.append({"import": mod})
+                (spec["ctors"] if it[0] == "ctor" else spec["ehs"])[it[1]]["module_import"] = mod
 
 
 def make_state_input(rng, spec, cid, t):
@@ -485,6 +607,55 @@ def make_state_input(rng, spec, cid, t):
         c["ann_cloning"] = None            # the default of prebuilt types
     spec["ctors"][cid] = c
     return c
+
+
+def scope_registrations(rng, spec):
+    """Registrations of parents are inherited, registrations of siblings are invisible: a constructor (singletons, prebuilt
+    types and configuration entries included) whose users all live in one nested blueprint may be registered there instead
+    of the root. A user is a root component (handler, middleware, fallback, observer) whose resolved closure contains the
+    registration; types that an error handler needs stay where they are (error handlers run on behalf of many components)."""
+    from e2e.model import Model
+    m = Model(spec)
+    users = {}
+    for k in ("handlers", "mws", "fallbacks", "obs"):
+        for xid in spec[k]:
+            if xid not in m.reg:
+                continue
+            for (cid, _t) in m.closure(xid):
+                users.setdefault(cid, []).append(m.reg[xid][0])
+    pinned = set()
+    for eh in spec["ehs"].values():
+        stack = [t for (t, _m) in eh.get("ins", [])]
+        while stack:
+            t = stack.pop()
+            for cid, c in spec["ctors"].items():
+                if m.ctor_out_matches(cid, t) and cid not in pinned:
+                    pinned.add(cid)
+                    stack += [u for (u, _m) in m.ctor_inputs(cid, t)]
+    root_regs = {it[1]: it for it in spec["bp"]["items"] if it[0] == "ctor"}
+    for cid, it in list(root_regs.items()):
+        c = spec["ctors"][cid]
+        if cid in pinned or c.get("generic_param") or cid not in users or rng.random() < 0.4:
+            continue
+        # other registrations for the same type (overrides further down) must not end up next to this one
+        if sum(1 for c2 in spec["ctors"].values() if c2["out"] == c["out"]) > 1:
+            continue
+        scopes = users[cid]
+        lca = scopes[0]
+        for sc in scopes[1:]:
+            n = 0
+            while n < min(len(lca), len(sc)) and lca[n] == sc[n]:
+                n += 1
+            lca = lca[:n]
+        if not lca:
+            continue
+        # somewhere on the path from the root to the blueprint that contains every user
+        depth = rng.randint(1, len(lca))
+        bp = spec["bp"]
+        for i in lca[:depth]:
+            bp = [x for x in bp["items"] if x[0] == "nest"][i][2]
+        spec["bp"]["items"].remove(it)
+        bp["items"].insert(rng.randint(0, len(bp["items"])), it)
 
 
 def add_prims(rng, spec):
@@ -541,7 +712,7 @@ def methodize(rng, spec, p=0.5):
     resolve and spell in the generated code do."""
     def plain(t):
         tt = spec["types"].get(t)
-        return tt is not None and not tt.get("generic") and "<" not in t
+        return tt is not None and not tt.get("generic") and not tt.get("lt") and "<" not in t
 
     dep = spec.get("dep") or {"types": [], "errors": [], "ctors": []}
 
@@ -561,6 +732,9 @@ def methodize(rng, spec, p=0.5):
             c["method"] = {"on": c["ins"][0][0], "receiver": True, "bare_attr": rng.random() < 0.5}
         else:
             c["method"] = {"on": c["out"], "self_ret": rng.random() < 0.6, "bare_attr": rng.random() < 0.5}
+        if rng.random() < 0.35 and not c.get("async"):
+            # the method belongs to a trait implemented for the type: the generated code must spell `<T as Trait>::method`
+            c["method"]["trait"] = "Tr%s" % cid
     for group in ("handlers", "mws", "fallbacks", "obs"):
         for xid, x in spec[group].items():
             if rng.random() < p and receiver_of(x) and x.get("path_params") is None:
@@ -582,7 +756,7 @@ def add_generics(rng, spec, kn):
     nested blueprints: `fn cg<T>(t: &T) -> G<T>` at the root, optionally `fn cgc(..) -> G<Tk>` / another generic one nested.
     Everybody only borrows G<..> immutably (clause a), so the application stays inside C02's class."""
     # (the generic constructor borrows its argument: values that are moved into their single consumer are not eligible)
-    concrete = [t for t, ty in spec["types"].items() if not ty.get("generic") and ty.get("disc") != "moved"]
+    concrete = [t for t, ty in spec["types"].items() if not ty.get("generic") and ty.get("disc") != "moved" and not t.startswith("TL") and not ty.get("lt")]
     if not concrete:
         return
     lc = rng.choice(["request", "transient"])
@@ -636,6 +810,25 @@ def set_effective_cloning(spec, cid, policy):
         for it in bp["items"]:
             if it[0] == "ctor" and it[1] == cid and len(it) > 2:
                 it[2].pop("cloning", None)
+
+
+def vary_lifecycle_representation(rng, spec):
+    """The lifecycle in effect for a constructor (`lc`) can be the one its attribute states or one set when it is registered
+    (`bp.constructor(C).lifecycle(Lifecycle::Singleton)`), which overrides the attribute (`ann_lc`)."""
+    regs = {}
+    for bp, _d in _bp_nodes(spec["bp"]):
+        for it in bp["items"]:
+            if it[0] == "ctor":
+                regs.setdefault(it[1], []).append(it)
+    for cid, c in spec["ctors"].items():
+        its = regs.get(cid, [])
+        if len(its) != 1 or c.get("input") or rng.random() > 0.25:
+            continue
+        it = its[0]
+        if len(it) < 3:
+            it.append({})
+        it[2]["lc"] = c["lc"]
+        c["ann_lc"] = rng.choice([x for x in ("singleton", "request", "transient") if x != c["lc"]])
 
 
 def vary_cloning_representation(rng, spec):
@@ -730,6 +923,10 @@ def repair_known(spec):
                     keep.append(it)
             bp["items"] = keep
         strip(spec["bp"])
+        for it in obs_items:
+            # (an observer that moves to the root no longer sees the types that only exist in a subtree)
+            o = spec["obs"][it[1]]
+            o["ins"] = [i for i in o.get("ins", []) if not i[0].startswith("TL")]
         spec["bp"]["items"] = obs_items + spec["bp"]["items"]
         m = Model(spec)
     # --- request-scoped overrides
